@@ -41,7 +41,8 @@ PROPS["C02"] = {
     "quick": {"budget_s": 20},
     "thorough": {"budget_s": 300},
     "floors": {
-        "quick": {"crash_points": 50000, "forks": 5000, "hdr_change.num_fat_sectors": 100, "hdr_change.num_minifat": 1000, "hdr_change.first_minifat": 500},
+        "quick": {"crash_points": 50000, "forks": 5000, "hdr_change.num_fat_sectors": 100, "hdr_change.num_minifat": 1000, "hdr_change.first_minifat": 500,
+                  "large_scenarios": 4, "large_scenario.crash_points_with_difat_sector": 20},
         "thorough": {"crash_points": 500000, "forks": 50000},
     },
 }
@@ -135,7 +136,7 @@ PROPS["C09"] = {
     "thorough": {"budget_s": 240},
     "floors": {
         "quick": {"evaluations": 20000, "invalid_name_no_effect_checked": 50000, "verbatim_checked": 100000, "name_units.31": 10000, "name_units.32": 10000,
-                  "lookup.variant.present": 5000, "findability_sweeps": 50000, "order_checks": 20000, "escaping_paths": 20000, "create_name.has_supplementary.valid": 20000},
+                  "lookup.variant.present": 5000, "findability_sweeps": 50000, "create_storage_all_deep.invalid": 5000, "order_checks": 20000, "escaping_paths": 20000, "create_name.has_supplementary.valid": 20000},
         "thorough": {"evaluations": 100000},
     },
 }
@@ -173,7 +174,7 @@ PROPS["C15"] = {
     "thorough": {"budget_s": 240},
     "floors": {
         "quick": {"cycles_checked": 30000, "cycles.template0.mini": 1500, "cycles.template0.regular": 500, "cycles.template1.mini": 1500,
-                  "cycles.template2.mini": 1500, "cycles.template4.regular": 500, "prefix.emptied": 5000, "prefix.fill_steered": 10000},
+                  "cycles.template2.mini": 1500, "cycles.template4.regular": 500, "cycles.template7.mini": 500, "cycles.template7.regular": 300, "cycles.template8.mini": 500, "cycles.template9.mini": 500, "prefix.emptied": 5000, "prefix.fill_steered": 10000},
         "thorough": {"cycles_checked": 300000},
     },
 }
